@@ -45,6 +45,7 @@ Partial == {Include(S("p"), "none", NilE, "", <<>>),
             Include(S("q"), "for", V("arr"), "x", <<WArg("y", I(9))>>),
             Include(S("p"), "none", NilE, "", <<WArg("x", I(8)), WArg("z", Y)>>),
             Include(V("n"), "none", NilE, "", <<>>),
+            Quoted(Include(S("p"), "with", I(5), "q", <<>>)), Quoted(RenderT(S("s"), "for", V("arr"), "x", <<>>)),
             Include(S("dir/q.html"), "with", I(5), "", <<>>), Include(S("dir/q.html"), "for", V("arr"), "", <<>>),
             RenderT(S("dir/q.html"), "with", I(6), "", <<>>), RenderT(S("dir/q.html"), "for", V("arr"), "", <<>>),
             Include(S("b"), "none", NilE, "", <<>>),
